@@ -14,9 +14,106 @@ var kernels4 = []k3spec{
 	// P1: base58 (math/big as intrinsics)
 	{pkg: "base58", fn: "Decode", name: "base58_Decode_"},
 	{pkg: "base58", fn: "Encode", name: "base58_Encode_"},
+	// P2: amount.go (float64 through Flocq)
+	{pkg: ".", recv: "AmountUnit", fn: "String", name: "AmountUnit_String"},
+	{pkg: ".", fn: "round", name: "bchutil_round"},
+	{pkg: ".", fn: "NewAmount", name: "NewAmount"},
+	{pkg: ".", recv: "Amount", fn: "ToUnit", name: "Amount_ToUnit"},
+	{pkg: ".", recv: "Amount", fn: "ToBCH", name: "Amount_ToBCH"},
+	{pkg: ".", recv: "Amount", fn: "Format", name: "Amount_Format"},
+	{pkg: ".", recv: "Amount", fn: "String", name: "Amount_String"},
+	{pkg: ".", recv: "Amount", fn: "MulF64", name: "Amount_MulF64"},
+	// P3: the remaining small functions
+	{pkg: ".", fn: "NewAddressPubKeyHash", name: "NewAddressPubKeyHash"},
+	{pkg: ".", fn: "NewAddressScriptHashFromHash", name: "NewAddressScriptHashFromHash"},
+	{pkg: ".", fn: "NewAddressScriptHash", name: "NewAddressScriptHash"},
+	{pkg: ".", fn: "NewAddressScriptHash32FromHash", name: "NewAddressScriptHash32FromHash"},
+	{pkg: ".", fn: "NewAddressScriptHash32", name: "NewAddressScriptHash32"},
+	{pkg: ".", fn: "NewLegacyAddressPubKeyHash", name: "NewLegacyAddressPubKeyHash"},
+	{pkg: ".", fn: "NewLegacyAddressScriptHashFromHash", name: "NewLegacyAddressScriptHashFromHash"},
+	{pkg: ".", fn: "NewLegacyAddressScriptHash", name: "NewLegacyAddressScriptHash"},
+	{pkg: ".", recv: "AddressPubKeyHash", fn: "Hash160", name: "AddressPubKeyHash_Hash160"},
+	{pkg: ".", recv: "AddressScriptHash", fn: "Hash160", name: "AddressScriptHash_Hash160"},
+	{pkg: ".", recv: "AddressScriptHash32", fn: "Hash256", name: "AddressScriptHash32_Hash256"},
+	{pkg: ".", recv: "LegacyAddressPubKeyHash", fn: "Hash160", name: "LegacyAddressPubKeyHash_Hash160"},
+	{pkg: ".", recv: "LegacyAddressScriptHash", fn: "Hash160", name: "LegacyAddressScriptHash_Hash160"},
+	{pkg: ".", recv: "AddressPubKeyHash", fn: "String", name: "AddressPubKeyHash_String"},
+	{pkg: ".", recv: "AddressScriptHash", fn: "String", name: "AddressScriptHash_String"},
+	{pkg: ".", recv: "AddressScriptHash32", fn: "String", name: "AddressScriptHash32_String"},
+	{pkg: ".", recv: "LegacyAddressPubKeyHash", fn: "String", name: "LegacyAddressPubKeyHash_String"},
+	{pkg: ".", recv: "LegacyAddressScriptHash", fn: "String", name: "LegacyAddressScriptHash_String"},
+	{pkg: ".", fn: "ConvertSlpToCashAddress", name: "ConvertSlpToCashAddress"},
+	{pkg: ".", fn: "ConvertCashToSlpAddress", name: "ConvertCashToSlpAddress"},
+	{pkg: ".", recv: "AddressPubKey", fn: "Format", name: "AddressPubKey_Format"},
+	{pkg: ".", recv: "AddressPubKey", fn: "SetFormat", name: "AddressPubKey_SetFormat"},
+	{pkg: ".", fn: "paramsFromNetID", name: "paramsFromNetID"},
+	{pkg: ".", recv: "AddressPubKey", fn: "AddressPubKeyHash", name: "AddressPubKey_AddressPubKeyHash"},
+	{pkg: ".", recv: "AddressPubKey", fn: "PubKey", name: "AddressPubKey_PubKey"},
+	{pkg: ".", fn: "NewWIF", name: "NewWIF"},
+	{pkg: ".", recv: "OutOfRangeError", fn: "Error", name: "OutOfRangeError_Error"},
+	{pkg: "coinset", recv: "byValueAge", fn: "Len", name: "byValueAge_Len"},
+	{pkg: "coinset", recv: "byValueAge", fn: "Swap", name: "byValueAge_Swap"},
+	{pkg: "coinset", recv: "byValueAge", fn: "Less", name: "byValueAge_Less"},
+	{pkg: "coinset", recv: "byAmount", fn: "Len", name: "byAmount_Len"},
+	{pkg: "coinset", recv: "byAmount", fn: "Swap", name: "byAmount_Swap"},
+	{pkg: "coinset", recv: "byAmount", fn: "Less", name: "byAmount_Less"},
+	{pkg: "coinset", recv: "SimpleCoin", fn: "Hash", name: "SimpleCoin_Hash"},
+	{pkg: "coinset", recv: "SimpleCoin", fn: "Index", name: "SimpleCoin_Index"},
+	{pkg: "coinset", recv: "SimpleCoin", fn: "txOut", name: "SimpleCoin_txOut"},
+	{pkg: "coinset", recv: "SimpleCoin", fn: "Value", name: "SimpleCoin_Value"},
+	{pkg: "coinset", recv: "SimpleCoin", fn: "PkScript", name: "SimpleCoin_PkScript"},
+	{pkg: "coinset", recv: "SimpleCoin", fn: "NumConfs", name: "SimpleCoin_NumConfs"},
+	{pkg: "coinset", recv: "SimpleCoin", fn: "ValueAge", name: "SimpleCoin_ValueAge"},
+	{pkg: "txsort", recv: "sortableInputSlice", fn: "Len", name: "sortableInputSlice_Len"},
+	{pkg: "txsort", recv: "sortableInputSlice", fn: "Swap", name: "sortableInputSlice_Swap"},
+	{pkg: "txsort", recv: "sortableOutputSlice", fn: "Len", name: "sortableOutputSlice_Len"},
+	{pkg: "txsort", recv: "sortableOutputSlice", fn: "Swap", name: "sortableOutputSlice_Swap"},
+	{pkg: "gcs/builder", fn: "RandomKey", name: "RandomKey"},
+	{pkg: "gcs/builder", fn: "WithKeyPM", name: "WithKeyPM"},
+	{pkg: "gcs/builder", fn: "WithKey", name: "WithKey"},
+	{pkg: "gcs/builder", fn: "WithKeyHashPM", name: "WithKeyHashPM"},
+	{pkg: "gcs/builder", fn: "WithRandomKeyPNM", name: "WithRandomKeyPNM"},
+	{pkg: "gcs/builder", fn: "WithRandomKeyPM", name: "WithRandomKeyPM"},
+	{pkg: "gcs/builder", fn: "WithRandomKey", name: "WithRandomKey"},
+	{pkg: "gcs/builder", fn: "BuildBasicFilter", name: "BuildBasicFilter"},
+	{pkg: "gcs/builder", fn: "BuildMempoolFilter", name: "BuildMempoolFilter"},
+	{pkg: "gcs/builder", fn: "GetFilterHash", name: "GetFilterHash"},
+	{pkg: "gcs/builder", fn: "MakeHeaderForFilter", name: "MakeHeaderForFilter"},
+	{pkg: "hdkeychain", recv: "ExtendedKey", fn: "ECPubKey", name: "ExtendedKey_ECPubKey"},
+	{pkg: "hdkeychain", recv: "ExtendedKey", fn: "ECPrivKey", name: "ExtendedKey_ECPrivKey"},
+	{pkg: "hdkeychain", recv: "ExtendedKey", fn: "Address", name: "ExtendedKey_Address"},
+	{pkg: "hdkeychain", fn: "GenerateSeed", name: "GenerateSeed"},
+	{pkg: "merkleblock", recv: "PartialBlock", fn: "GetMatches", name: "PartialBlock_GetMatches"},
+	{pkg: "merkleblock", recv: "PartialBlock", fn: "GetItems", name: "PartialBlock_GetItems"},
+	{pkg: "merkleblock", recv: "PartialBlock", fn: "BadTree", name: "PartialBlock_BadTree"},
+	{pkg: "bloom", fn: "minUint32", name: "minUint32"},
+	{pkg: "bloom", fn: "NewMerkleBlock", name: "bloom_NewMerkleBlock"},
+	{pkg: "merkleblock", fn: "NewMerkleBlockWithFilter", name: "NewMerkleBlockWithFilter"},
+	// P5: the JSON tree rewriters (t4_json.go)
+	{pkg: "jsonpb", fn: "convertBase64", name: "convertBase64"},
+	{pkg: "jsonpb", fn: "convertHex", name: "convertHex"},
+	// P6: bloom.NewFilter (math.Log a Section variable; the float arithmetic and the clamps concrete)
+	{pkg: "bloom", fn: "NewFilter", name: "NewFilter"},
+	// P4: block.go / tx.go with the wire (de)serialisers and io as Section variables
+	{pkg: ".", recv: "Block", fn: "Bytes", name: "Block_Bytes"},
+	{pkg: ".", recv: "Block", fn: "TxLoc", name: "Block_TxLoc"},
+	{pkg: ".", fn: "NewBlockFromReader", name: "NewBlockFromReader"},
+	{pkg: ".", fn: "NewBlockFromBytes", name: "NewBlockFromBytes"},
+	{pkg: ".", fn: "NewTxFromReader", name: "NewTxFromReader"},
+	{pkg: ".", fn: "NewTxFromBytes", name: "NewTxFromBytes"},
+	// P4, heap variant (t4_heap.go): the *Tx objects live in a table; LAST among the functions of the package
+	// (they replace the value versions of Gen/Kernels3.v for the callers listed after them)
+	{pkg: ".", fn: "NewTx", name: "hNewTx", heap: true},
+	{pkg: ".", recv: "Tx", fn: "MsgTx", name: "hTx_MsgTx", heap: true},
+	{pkg: ".", recv: "Tx", fn: "Hash", name: "hTx_Hash", heap: true},
+	{pkg: ".", recv: "Tx", fn: "Index", name: "hTx_Index", heap: true},
+	{pkg: ".", recv: "Tx", fn: "SetIndex", name: "hTx_SetIndex", heap: true},
+	{pkg: ".", recv: "Block", fn: "Tx", name: "hBlock_Tx", heap: true},
+	{pkg: ".", recv: "Block", fn: "Transactions", name: "hBlock_Transactions", heap: true},
+	{pkg: ".", recv: "Block", fn: "TxHash", name: "hBlock_TxHash", heap: true},
 }
 
-const header4 = `(* GENERATED by harness/cmd/gotrans (fourth mode) from the Go sources; do not edit.
+var header4 = `(* GENERATED by harness/cmd/gotrans (fourth mode) from the Go sources; do not edit.
 
    Continuation of Gen/Kernels3.v: the same translation (see its header and the
    header of Gen/Kernels2.v), and in addition:
@@ -33,6 +130,7 @@ const header4 = `(* GENERATED by harness/cmd/gotrans (fourth mode) from the Go s
      initialised by big.NewInt(<constant>) and only read in the whole package.
    Tie/Kernels4*.v prove these functions equal to the hand-written models. *)
 From Coq Require Import List NArith ZArith Bool.
+From Flocq Require Core IEEE754.BinarySingleNaN.
 From BU Require Import Lib.Bytes Lib.Radix Gen.Kernels Gen.Kernels2 Gen.Kernels3.
 Import ListNotations.
 Local Open Scope N_scope.
@@ -61,7 +159,7 @@ Definition big_sign (x : Z) : Z := Z.sgn x.
    (Go: "undefined"; this is what the implementation returns) *)
 Definition big_int64 (x : Z) : Z := Go.wrapZ 64 x.
 
-End Go4.
+` + floatPrelude4 + heapPrelude4 + jsonPrelude4 + `End Go4.
 
 `
 
@@ -354,6 +452,10 @@ func (c *m3) bigMethod(e *ast.CallExpr, sel *ast.SelectorExpr) ([]string, []mtyp
 	return one(store(sel.X, q), bigT)
 }
 
+// functions of the repository that stay abstract when called from the given package (their arguments are
+// abstract objects there): caller package > callee key
+var abstractFrom4 = map[string]bool{"merkleblock>bloom:.GetMatchedIndices": true}
+
 // types that Gen/Kernels3.v treats as abstract objects and the fourth mode looks into
 var notAbstract4 = map[string]bool{"math/big.Int": true}
 
@@ -362,11 +464,29 @@ func (c *m3) mt4(t types.Type, at ast.Node) (mtype, bool) {
 	if isBigInt4(t) {
 		return mtype{k: mZ, w: 0, big: true}, true
 	}
+	if isHeapPtr4(t) {
+		e := c.mt(t.Underlying().(*types.Pointer).Elem(), at)
+		return mtype{k: mHPtr, name: e.name, elem: &e}, true
+	}
+	if jsonMode4() && isEmptyIface4(t) {
+		return c.declJson4(at), true
+	}
+	if b, ok := t.Underlying().(*types.Basic); ok {
+		switch b.Kind() {
+		case types.Float64, types.UntypedFloat:
+			return mtype{k: mFloat}, true
+		case types.Float32:
+			c.fail(at, "float32")
+		}
+	}
 	return mtype{}, false
 }
 
 // intrinsic4: imported functions given a meaning by the fourth mode
 func (c *m3) intrinsic4(e *ast.CallExpr, path, name string, args func(int) []string) (string, mtype, bool) {
+	if s, t, ok := c.floatIntrinsic4(e, path, name, args); ok {
+		return s, t, true
+	}
 	switch path + "." + name {
 	case "math/big.NewInt":
 		a := args(1)
